@@ -313,6 +313,24 @@ def v3_map_uses(ctx) -> None:
         ctx.violation("V3", m.node, "Quotient.get_terms must map each parameter tuple with self._parent_param_map", construct="Quotient.get_terms map")
     # a map applied to positions: source positions index the table, target positions are written
     for cname in ("Constructor", "DisjointUnion", "Quotient"):
+        if cname == "Quotient":
+            # the quotient's map runs the other way (one value to several target positions): the version it resolves to *assigns*
+            res = P.find_method(P.need_class("Quotient"), "param_map")
+            bres = P.find_method(P.need_class("Quotient"), "build_param_map")
+            acc = [n for r_ in (res, bres) if r_ is not None for n in walk_local(r_.node) if isinstance(n, ast.AugAssign) and isinstance(n.target, ast.Subscript)]
+            bound = {a.value.id for r_ in (bres,) if r_ is not None for a in ast.walk(r_.node) if isinstance(a, ast.Attribute) and a.attr == "param_map"
+                     and isinstance(a.value, ast.Name) and a.value.id in P.classes}
+            for b in sorted(bound):
+                bm = P.find_method(P.classes[b], "param_map")
+                if bm is not None:
+                    acc += [n for n in walk_local(bm.node) if isinstance(n, ast.AugAssign) and isinstance(n.target, ast.Subscript)]
+            if res is None or bres is None:
+                raise AnalysisError("V3: Quotient has no param_map / build_param_map at all")
+            if acc:
+                ctx.violation("V3", acc[0], f"the parameter map a Quotient builds resolves to {res.qualname} / {bres.qualname}, which *adds* into the target position "
+                              f"(`{norm(acc[0])[:50]}`): a quotient's map hands one value to several positions of the product, and where two of them meet the value is doubled",
+                              construct="Quotient.param_map resolves to an accumulating map")
+                continue
         m = P.need_method(cname, "param_map", own=True)
         f = m.node
         loops = [l for l in walk_local(f) if isinstance(l, ast.For) and norm(l.iter) == "enumerate(param)" and isinstance(l.target, ast.Tuple)]
@@ -946,3 +964,90 @@ def v12_initial_conditions_bound(ctx) -> None:
         else:
             ctx.violation("V12", r, f"`{norm(r.value)[:60]}` does not depend on `{chk}`: this provider hands back its default number of coefficients whatever was asked for, and the "
                           "comparison with the series expansion (zip / ==) is made against a list of another length")
+
+
+def v13_dictionaries_kept_as_given(ctx) -> None:
+    """A constructor keeps the strategy's parameter dictionaries as they are given: a key that
+    is absent from a child's dictionary *means* that the child drops that statistic (it
+    contributes 0), so a dictionary that is completed, defaulted or merged on the way in says
+    something else than the strategy did."""
+    P = ctx.P
+    n = 0
+    for cls in P.subclasses(P.need_class("Constructor"), strict=True):
+        init = cls.methods.get("__init__")
+        if init is None or "extra_parameters" not in init.params():
+            continue
+        f = init.node
+        for st in walk_local(f):
+            if not (isinstance(st, ast.Assign) and any(is_self_attr(t, "extra_parameters") for t in st.targets)):
+                continue
+            n += 1
+            v = D.expanded(f, st.value)
+            txt = norm(v)
+            if "extra_parameters" not in txt:
+                # the default when nothing is given: one empty dictionary per child
+                if isinstance(v, ast.Call) and norm(v.func) == "tuple" and v.args and isinstance(v.args[0], ast.GeneratorExp) and norm(v.args[0].elt) == "{}":
+                    ctx.ok("V13", f"{cls.name}: without dictionaries, one empty dictionary per child")
+                    continue
+                raise AnalysisError(f"V13: {cls.name}.__init__ stores `{txt[:60]}` as its dictionaries")
+            if txt in ("extra_parameters", "tuple(extra_parameters)", "tuple((dict(_m) for _m in extra_parameters))", "tuple((_m.copy() for _m in extra_parameters))"):
+                ctx.ok("V13", f"{cls.name} keeps the strategy's dictionaries as given (`{txt}`)")
+                continue
+            helpers = [c for c in ast.walk(v) if isinstance(c, ast.Call) and isinstance(c.func, ast.Attribute) and isinstance(c.func.value, ast.Name)
+                       and c.func.value.id in ("self", "cls", cls.name) and P.find_method(cls, c.func.attr) is not None]
+            grows = [x for c in helpers for x in ast.walk(P.find_method(cls, c.func.attr).node)
+                     if (isinstance(x, ast.Dict) and any(k is None for k in x.keys)) or (isinstance(x, ast.Call) and isinstance(x.func, ast.Attribute)
+                                                                                        and x.func.attr in ("setdefault", "update"))
+                     or (isinstance(x, ast.Subscript) and isinstance(x.ctx, ast.Store))]
+            grows += [x for x in ast.walk(v) if isinstance(x, ast.Dict) and any(k is None for k in x.keys)]
+            if grows:
+                ctx.violation("V13", st, f"{cls.name}.__init__ stores `{txt[:70]}`: the dictionaries are completed on the way in (`{norm(grows[0])[:50]}`), but a key that is absent "
+                              "from a child's dictionary means that the child drops that statistic -- the added entry pours another statistic of the child into it")
+            else:
+                raise AnalysisError(f"V13: {cls.name}.__init__ reworks the dictionaries (`{txt[:60]}`) in a way the analysis does not read")
+    if n < 6:
+        ctx.floor("V13", 99)
+
+
+def v14_expansion_decides(ctx) -> None:
+    """Whether a closed form has a power series is decided by computing the series.  The
+    solver's closed forms have removable singularities at the origin
+    ((1 - sqrt(1 - 4x^2)) / (2x^2)): any cheaper test on the expression -- its value under plain
+    substitution, its denominator at 0 -- rejects correct candidates before they are expanded,
+    and get_genf then finds none that matches the initial conditions."""
+    P = ctx.P
+    te = P.need_function("utils", "taylor_expand")
+    f = te.node
+    ctx.analysed(te)
+    ps = te.params()
+    if not ps:
+        raise AnalysisError("V14: taylor_expand(genf, n) expected")
+    gname = ps[0]
+    ser = [c for c in walk_local(f) if isinstance(c, ast.Call) and isinstance(c.func, ast.Attribute) and c.func.attr == "series"]
+    if not ser:
+        raise AnalysisError("V14: taylor_expand no longer calls .series()")
+    first = min(c.lineno for c in ser)
+    early = [x for x in walk_local(f) if isinstance(x, (ast.Raise, ast.Return)) and x.lineno < first
+             and not any(isinstance(p_, ast.ExceptHandler) for p_ in _anc(x, f))]
+    bad = False
+    for x in early:
+        gs = [norm(t) for t, _p in C.flatten_guards(C.guards(f, x))]
+        dep = [t for t in gs if any(isinstance(nm, ast.Name) and nm.id == gname for nm in ast.walk(ast.parse(t, mode="eval")))]
+        # a local derived from the expression counts too
+        if not dep:
+            derived = {t_.id for st in walk_local(f) for t_, v in [PT.assign_value(st)] if isinstance(t_, ast.Name) and v is not None
+                       and any(isinstance(nm, ast.Name) and nm.id == gname for nm in ast.walk(v))}
+            dep = [t for t in gs if any(isinstance(nm, ast.Name) and nm.id in derived for nm in ast.walk(ast.parse(t, mode="eval")))]
+        if dep:
+            bad = True
+            ctx.violation("V14", x, f"taylor_expand gives up under `{dep[0][:70]}` before the series is computed: a test on the expression is not a test on its series (closed forms "
+                          "of algebraic systems are 0/0 at the origin under substitution), so correct candidates are thrown away and get_genf reports that none matches")
+    if not bad:
+        ctx.ok("V14", "taylor_expand rejects a candidate only when computing its series fails")
+
+
+def _anc(node: ast.AST, stop: ast.AST):
+    p_ = getattr(node, "_parent", None)
+    while p_ is not None and p_ is not stop:
+        yield p_
+        p_ = getattr(p_, "_parent", None)
